@@ -826,8 +826,12 @@ pub fn check_type(
                     Err(err) => return Some(o.place(err)),
                 };
                 if let PDFType::Any = elem_rep.typ() {
-                    result = check_predicate(&o, c.pred());
-                    continue
+                    // the elements can only be skipped if nothing else
+                    // is asked of them.
+                    if elem_rep.pred().is_none() && elem_rep.indirect() == IndirectSpec::Allowed {
+                        result = check_predicate(&o, c.pred());
+                        continue
+                    }
                 }
                 /* non-Any case */
                 // the predicate of the check applies to the object itself.
